@@ -94,6 +94,19 @@ example :
   revert this
   decide +kernel
 
+/-- so the full statement of (c1) — every option setting, every parsed input — does not hold of
+the model: the quoted-mode exclusion is needed -/
+theorem not_fullNormalizeCanonicalize : ¬ FullNormalizeCanonicalize id := by
+  intro h
+  let p : Parsed :=
+    { scheme := "http".toList, netloc := "a.com".toList, path := [], query := "k=a=b&k=a5".toList,
+      fragment := [], username := none, password := none, hostname := some "a.com".toList, port := none }
+  have h1 := h { quoted := true } p (reparse (canonComps id true false p)) p.scheme true true
+    (reparses_reparse _)
+  have h2 := congrArg Split.query h1
+  revert h2
+  decide +kernel
+
 /-- port clause (how (c1) survives the two default protocols): `canonicalize_url` drops 80 only
 for http and 443 only for https — and assumes https for a scheme-less URL where
 `normalize_url` assumes http — but whatever port it dropped, `normalize_url` drops too -/
